@@ -47,7 +47,8 @@ def assigned_paths(stmts):
                 add("$nprinted", None)
             if isinstance(n, ast.Call) and isinstance(n.func, ast.Attribute) and n.func.attr in ("write", "__call__") or \
                     isinstance(n, ast.Call) and isinstance(n.func, ast.Name) and n.func.id in ("step", "__ginc__"):
-                for g_ in ("$nwrites", "$w_writer", "$w_rec1", "$w_rec2", "$nfiltered", "$nstat"):
+                for g_ in ("$nwrites", "$w_writer", "$w_rec1", "$w_rec2", "$nfiltered", "$nstat", "$ncalls", "$c_step", "$c_obj",
+                           "$c_in", "$c_in2", "$c_none", "$c_out", "$c_out2", "$chain_start"):
                     add(g_, None)
             if isinstance(n, ast.Call) and isinstance(n.func, ast.Attribute) and n.func.attr == "add_match":
                 add("$tally", None)
@@ -633,7 +634,7 @@ class ExecS(Exec):
                 if k == "items":
                     return "items", [(g, TupV((z3.IntVal(i + start), v))) for i, (g, v) in enumerate(seq)]
                 if k == "seq":
-                    return "seq", ("enumerate", seq)
+                    return "seq", ("enumerate:%d" % start, seq[1])
                 raise Unsupported("enumerate of range")
             if f == "zip":
                 parts = [self.classify_iter(a, st) for a in it.args]
@@ -778,8 +779,8 @@ class ExecS(Exec):
                         el = StrV(z3.Store(z3.K(I, z3.IntVal(0)), 0, sv.arr[k]), z3.IntVal(1))
                     else:
                         el = self.world.wrap_elem(self, sv, sv.arr[k], bst)
-                    if mode == "enumerate":
-                        el = TupV((k, el))
+                    if mode.startswith("enumerate"):
+                        el = TupV((k + int(mode.split(":")[1]) if ":" in mode else k, el))
                     self.assign(s.target, el, bst, s)
         # invariant on entry
         for lab, inv in invs:
